@@ -238,6 +238,9 @@ def run(cx):
     obligations += len(cx.instances[-1].sites)
     leave_implies_terminal(cx, "C19.f")
     obligations += len(cx.instances[-1].sites)
+    from props.shared import removal_implies_fin
+    removal_implies_fin(cx, "C19.g")
+    obligations += len(cx.instances[-1].sites)
     cx.extra["obligations"] = obligations
 
 
